@@ -726,6 +726,19 @@ def cash_replay(ctx: Ctx, recs: List[Dict[str, Any]]) -> None:
                         i = int(bad.nonzero()[0])
                         ctx.violation(f"cash:{fam}:shifted-sample", f"{name}.cash of a sample shifted by {c} ({dt2}) is not the cash amount of the sample plus {c}",
                                       {"x": rs[cols[i]]["x"], "shift": c, "expected": (base[i] + c).item(), "observed": got[i].item()})
+            # the amount does not depend on whether gradients are being recorded (a sample that requires grad, grad mode on)
+            try:
+                with torch.enable_grad():
+                    with_grad = crit.cash(Xc[:, :1].clone().requires_grad_(True)).detach()
+                with torch.no_grad():
+                    without = crit.cash(Xc[:, :1].clone())
+                ctx.count(n=1)
+                if with_grad.shape != without.shape or not bool((((with_grad - without).abs() <= 1e-9 * (1 + without.abs())) | (with_grad.isnan() & without.isnan())).all()) \
+                        or bool(with_grad.isnan().any()) != bool(without.isnan().any()):
+                    ctx.violation(f"cash:{fam}:grad-mode", f"{name}.cash of a sample that requires grad differs from the amount without gradient recording",
+                                  {"x": rs[cols[0]]["x"], "with_grad": with_grad.tolist(), "without": without.tolist()})
+            except Exception as e:
+                ctx.violation(f"cash:{fam}:grad-mode:raises", f"{name}.cash raised {type(e).__name__} on a sample that requires grad", {"error": repr(e)[:200]})
             modes = [("multi-column (N,M)", lambda: crit.cash(Xc)),
                      ("with target", lambda: crit.cash(Xc + 1.5, target=torch.full_like(Xc, 1.5))),
                      ("column by column", lambda: torch.stack([crit.cash(Xc[:, i]) for i in range(min(Xc.size(1), 24))]))]
